@@ -167,6 +167,8 @@ func classifyOpen(err error) string {
 		return "xsigread"
 	case strings.HasPrefix(msg, "reading trailer"):
 		return "trailer"
+	case strings.HasPrefix(msg, "unreasonable TOC size"):
+		return "toolarge"
 	}
 	if c := hdrClass(err); c != "" {
 		return c
@@ -193,6 +195,14 @@ func classifySign(err error) string {
 	switch {
 	case strings.HasPrefix(msg, "checksumming "):
 		return fileClass(msg)
+	case strings.HasPrefix(msg, "file ") && strings.HasSuffix(msg, "lies in front of the end of the signature area"):
+		return "ffront"
+	case strings.HasPrefix(msg, "file ") && strings.HasSuffix(msg, "has no archived-checksum"):
+		return "fnosum"
+	case strings.HasSuffix(msg, "element has an invalid size or offset"):
+		return "sigfield"
+	case strings.HasPrefix(msg, "checksum and signature areas are not contiguous"):
+		return "sigtile"
 	case strings.Contains(msg, "unreasonably large TOC"):
 		return "toolarge"
 	case strings.Contains(msg, "missing xar/toc"):
